@@ -45,74 +45,103 @@ theorem gap_step {pj : PJ} {a b : Nat} (g : Gap pj a b) (h : a < b) :
   obtain ⟨w, hw, ht, h1, h2⟩ := g.2 a (Nat.le_refl _) h
   exact ⟨w, hw, ht, h1, h2, gap_suffix g (by omega) h2⟩
 
-/-- `Advance`'s NOP loop started anywhere at the beginning of a gap arrives at its end. -/
-theorem advanceLoop_gap' (pj : PJ) (i : Iter) : ∀ (n a b : Nat), b - a = n → Gap pj a b → b ≤ i.lim →
+/-- The tag register of the starting iterator is dead: every exit of the loop overwrites it. -/
+theorem advanceLoop_t (pj : PJ) (i : Iter) (x : UInt8) (off : Nat) :
+    Iter.advanceLoop pj { i with t := x } off = Iter.advanceLoop pj i off := by
+  rw [Iter.advanceLoop.eq_1 pj i off, Iter.advanceLoop.eq_1 pj { i with t := x } off]
+
+theorem advanceIntoLoop_t (pj : PJ) (i : Iter) (x : UInt8) (off : Nat) :
+    Iter.advanceIntoLoop pj { i with t := x } off = Iter.advanceIntoLoop pj i off := by
+  rw [Iter.advanceIntoLoop.eq_1 pj i off, Iter.advanceIntoLoop.eq_1 pj { i with t := x } off]
+
+theorem advanceIterLoop_t (pj : PJ) (i : Iter) (x : UInt8) (off : Nat) :
+    Iter.advanceIterLoop pj { i with t := x } off = Iter.advanceIterLoop pj i off := by
+  rw [Iter.advanceIterLoop.eq_1 pj i off, Iter.advanceIterLoop.eq_1 pj { i with t := x } off]
+
+/-- The payload register of the starting iterator is overwritten by the first word read: it reaches the result
+    only when the loop starts at (or beyond) the end of the view. -/
+theorem advanceLoop_cur (pj : PJ) (i : Iter) (c : UInt64) {off : Nat} (h : off < i.lim) :
+    Iter.advanceLoop pj { i with cur := c } off = Iter.advanceLoop pj i off := by
+  rw [Iter.advanceLoop.eq_1 pj i off, Iter.advanceLoop.eq_1 pj { i with cur := c } off]
+  simp only [show ¬ off ≥ i.lim from by omega, dite_false]
+
+theorem advanceIntoLoop_cur (pj : PJ) (i : Iter) (c : UInt64) {off : Nat} (h : off < i.lim) :
+    Iter.advanceIntoLoop pj { i with cur := c } off = Iter.advanceIntoLoop pj i off := by
+  rw [Iter.advanceIntoLoop.eq_1 pj i off, Iter.advanceIntoLoop.eq_1 pj { i with cur := c } off]
+  simp only [show ¬ off ≥ i.lim from by omega, dite_false]
+
+theorem advanceIterLoop_cur (pj : PJ) (i : Iter) (c : UInt64) {off : Nat} (h : off < i.lim) :
+    Iter.advanceIterLoop pj { i with cur := c } off = Iter.advanceIterLoop pj i off := by
+  rw [Iter.advanceIterLoop.eq_1 pj i off, Iter.advanceIterLoop.eq_1 pj { i with cur := c } off]
+  simp only [show ¬ off = i.lim from by omega, show ¬ off > i.lim from by omega, if_false, dite_false]
+
+/-- The NOP loops of `Advance`, `AdvanceInto`, `AdvanceIter` started anywhere at the beginning of a gap arrive at
+    its end, carrying in `cur` the skip count `c` of the last NOP word they stepped on (the loops overwrite `i.cur`
+    and `i.t` on every iteration; `c` is the old payload if the gap is empty). -/
+theorem loops_gap' (pj : PJ) : ∀ (n a b : Nat) (i : Iter), b - a = n → Gap pj a b → b ≤ i.lim →
+    ∃ c, (a = b → c = i.cur) ∧
+      Iter.advanceLoop pj i a = Iter.advanceLoop pj { i with cur := c } b ∧
+      Iter.advanceIntoLoop pj i a = Iter.advanceIntoLoop pj { i with cur := c } b ∧
+      Iter.advanceIterLoop pj i a = Iter.advanceIterLoop pj { i with cur := c } b := by
+  intro n
+  induction n using Nat.strongRecOn with
+  | _ n ih =>
+    intro a b i hn g hb
+    by_cases hab : a = b
+    · subst hab
+      exact ⟨i.cur, fun _ => rfl, rfl, rfl, rfl⟩
+    · have hlt : a < b := by have := g.1; omega
+      obtain ⟨w, hw, ht, h1, h2, g'⟩ := gap_step g hlt
+      obtain ⟨c, _, e1, e2, e3⟩ := ih (b - (a + (payloadOf w).toNat)) (by omega) _ _
+        { i with cur := payloadOf w, t := tagNop } rfl g' hb
+      have he : a + 1 + ((payloadOf w).toNat - 1) = a + (payloadOf w).toNat := by omega
+      refine ⟨c, fun h => absurd h hab, ?_, ?_, ?_⟩
+      · rw [Iter.advanceLoop.eq_1 pj i a]
+        have hnl : ¬ a ≥ i.lim := by omega
+        simp only [hnl, dite_false]
+        rw [rdT_word hw]
+        simp only [Res.bind_ok, ht, beq_self_eq_true, if_true, payload_ne_zero h1, Bool.false_eq_true, if_false]
+        rw [he, e1]
+        exact advanceLoop_t pj { i with cur := c } tagNop b
+      · rw [Iter.advanceIntoLoop.eq_1 pj i a]
+        have hnl : ¬ a ≥ i.lim := by omega
+        simp only [hnl, dite_false]
+        rw [rdT_word hw]
+        simp only [Res.bind_ok, ht, beq_self_eq_true, if_true, payload_ne_zero h1, Bool.false_eq_true, dite_false]
+        rw [e2]
+        exact advanceIntoLoop_t pj { i with cur := c } tagNop b
+      · rw [Iter.advanceIterLoop.eq_1 pj i a]
+        have hne : ¬ a = i.lim := by omega
+        have hnl : ¬ a > i.lim := by omega
+        simp only [hne, hnl, if_false, dite_false]
+        rw [rdT_word hw]
+        simp only [Res.bind_ok, ht, beq_self_eq_true, if_true, payload_ne_zero h1, Bool.false_eq_true, if_false]
+        rw [he, e3]
+        exact advanceIterLoop_t pj { i with cur := c } tagNop b
+
+theorem loops_gap (pj : PJ) (i : Iter) {a b : Nat} (g : Gap pj a b) (hb : b ≤ i.lim) :
+    ∃ c, (a = b → c = i.cur) ∧
+      Iter.advanceLoop pj i a = Iter.advanceLoop pj { i with cur := c } b ∧
+      Iter.advanceIntoLoop pj i a = Iter.advanceIntoLoop pj { i with cur := c } b ∧
+      Iter.advanceIterLoop pj i a = Iter.advanceIterLoop pj { i with cur := c } b :=
+  loops_gap' pj _ a b i rfl g hb
+
+/-- A gap that ends inside the view: the word at its end is read next and overwrites the registers, so the loop
+    behaves exactly as if started there. -/
+theorem advanceLoop_gap (pj : PJ) (i : Iter) {a b : Nat} (g : Gap pj a b) (hb : b < i.lim) :
     Iter.advanceLoop pj i a = Iter.advanceLoop pj i b := by
-  intro n
-  induction n using Nat.strongRecOn with
-  | _ n ih =>
-    intro a b hn g hb
-    by_cases hab : a = b
-    · rw [hab]
-    · have hlt : a < b := by have := g.1; omega
-      obtain ⟨w, hw, ht, h1, h2, g'⟩ := gap_step g hlt
-      rw [Iter.advanceLoop]
-      have hnl : ¬ a ≥ i.lim := by omega
-      simp only [hnl, dite_false]
-      rw [rdT_word hw]
-      simp only [Res.bind_ok, ht, beq_self_eq_true, if_true, payload_ne_zero h1, Bool.false_eq_true, if_false]
-      have he : a + 1 + ((payloadOf w).toNat - 1) = a + (payloadOf w).toNat := by omega
-      rw [he]
-      exact ih (b - (a + (payloadOf w).toNat)) (by omega) _ _ rfl g' hb
+  obtain ⟨c, _, e, _, _⟩ := loops_gap pj i g (Nat.le_of_lt hb)
+  rw [e, advanceLoop_cur pj i c hb]
 
-theorem advanceLoop_gap (pj : PJ) (i : Iter) {a b : Nat} (g : Gap pj a b) (hb : b ≤ i.lim) :
-    Iter.advanceLoop pj i a = Iter.advanceLoop pj i b :=
-  advanceLoop_gap' pj i _ a b rfl g hb
-
-theorem advanceIntoLoop_gap' (pj : PJ) (i : Iter) : ∀ (n a b : Nat), b - a = n → Gap pj a b → b ≤ i.lim →
+theorem advanceIntoLoop_gap (pj : PJ) (i : Iter) {a b : Nat} (g : Gap pj a b) (hb : b < i.lim) :
     Iter.advanceIntoLoop pj i a = Iter.advanceIntoLoop pj i b := by
-  intro n
-  induction n using Nat.strongRecOn with
-  | _ n ih =>
-    intro a b hn g hb
-    by_cases hab : a = b
-    · rw [hab]
-    · have hlt : a < b := by have := g.1; omega
-      obtain ⟨w, hw, ht, h1, h2, g'⟩ := gap_step g hlt
-      rw [Iter.advanceIntoLoop]
-      have hnl : ¬ a ≥ i.lim := by omega
-      simp only [hnl, dite_false]
-      rw [rdT_word hw]
-      simp only [Res.bind_ok, ht, beq_self_eq_true, if_true, payload_ne_zero h1, Bool.false_eq_true, dite_false]
-      exact ih (b - (a + (payloadOf w).toNat)) (by omega) _ _ rfl g' hb
+  obtain ⟨c, _, _, e, _⟩ := loops_gap pj i g (Nat.le_of_lt hb)
+  rw [e, advanceIntoLoop_cur pj i c hb]
 
-theorem advanceIntoLoop_gap (pj : PJ) (i : Iter) {a b : Nat} (g : Gap pj a b) (hb : b ≤ i.lim) :
-    Iter.advanceIntoLoop pj i a = Iter.advanceIntoLoop pj i b :=
-  advanceIntoLoop_gap' pj i _ a b rfl g hb
-
-theorem advanceIterLoop_gap' (pj : PJ) (i : Iter) : ∀ (n a b : Nat), b - a = n → Gap pj a b → b ≤ i.lim →
+theorem advanceIterLoop_gap (pj : PJ) (i : Iter) {a b : Nat} (g : Gap pj a b) (hb : b < i.lim) :
     Iter.advanceIterLoop pj i a = Iter.advanceIterLoop pj i b := by
-  intro n
-  induction n using Nat.strongRecOn with
-  | _ n ih =>
-    intro a b hn g hb
-    by_cases hab : a = b
-    · rw [hab]
-    · have hlt : a < b := by have := g.1; omega
-      obtain ⟨w, hw, ht, h1, h2, g'⟩ := gap_step g hlt
-      rw [Iter.advanceIterLoop]
-      have hne : ¬ a = i.lim := by omega
-      have hnl : ¬ a > i.lim := by omega
-      simp only [hne, hnl, if_false, dite_false]
-      rw [rdT_word hw]
-      simp only [Res.bind_ok, ht, beq_self_eq_true, if_true, payload_ne_zero h1, Bool.false_eq_true, if_false]
-      have he : a + 1 + ((payloadOf w).toNat - 1) = a + (payloadOf w).toNat := by omega
-      rw [he]
-      exact ih (b - (a + (payloadOf w).toNat)) (by omega) _ _ rfl g' hb
-
-theorem advanceIterLoop_gap (pj : PJ) (i : Iter) {a b : Nat} (g : Gap pj a b) (hb : b ≤ i.lim) :
-    Iter.advanceIterLoop pj i a = Iter.advanceIterLoop pj i b :=
-  advanceIterLoop_gap' pj i _ a b rfl g hb
+  obtain ⟨c, _, _, _, e⟩ := loops_gap pj i g (Nat.le_of_lt hb)
+  rw [e, advanceIterLoop_cur pj i c hb]
 
 theorem peekLoop_gap' (pj : PJ) (lim : Nat) : ∀ (n a b : Nat), b - a = n → Gap pj a b → b ≤ lim →
     Iter.peekLoop pj lim a = Iter.peekLoop pj lim b := by
@@ -295,7 +324,7 @@ theorem advanceIntoLoop_live (pj : PJ) (i : Iter) {a : Nat} {w : UInt64} (hw : w
 
 theorem advanceIterLoop_live (pj : PJ) (i : Iter) {a : Nat} {w : UInt64} (hw : word pj a = some w)
     (hn : (tagOf w == tagNop) = false) (hl : a < i.lim) :
-    Iter.advanceIterLoop pj i a = .ok (some { i with off := a + 1, cur := payloadOf w, t := tagOf w }) := by
+    Iter.advanceIterLoop pj i a = .ok ({ i with off := a + 1, cur := payloadOf w, t := tagOf w }, true) := by
   rw [Iter.advanceIterLoop]
   have hne : ¬ a = i.lim := by omega
   have hnl : ¬ a > i.lim := by omega
@@ -356,14 +385,15 @@ theorem advance_end (pj : PJ) (i : Iter) (lo hi : Nat) (g : Gap pj lo hi) (hhi :
   unfold Iter.advance
   rw [bump_to i lo ha hlo]
   simp only [Res.bind_ok]
-  rw [advanceLoop_gap pj i g hhi]
+  obtain ⟨c0, _, e0, _, _⟩ := loops_gap pj i g hhi
+  rw [e0]
   rcases hend with he | ⟨c, hc, hn, hty⟩
   · rw [Iter.advanceLoop]
     have : hi ≥ i.lim := by omega
     simp only [this, dite_true, Res.bind_ok, Bool.not_false, if_true]
     exact ⟨_, rfl⟩
   · by_cases hlt : hi < i.lim
-    · rw [advanceLoop_live pj i hc hn hlt]
+    · rw [advanceLoop_live pj { i with cur := c0 } hc hn hlt]
       simp only [Res.bind_ok, Bool.not_true, Bool.false_eq_true, if_false]
       split
       · exact ⟨_, rfl⟩
@@ -815,7 +845,7 @@ theorem advanceIter_root (pj : PJ) (i d : Iter) (lo q e : Nat) (g : Gap pj lo q)
   rw [bump_to i lo ha hlo]
   simp only [Res.bind_ok]
   rw [advanceIterLoop_gap pj i g (by omega), advanceIterLoop_live pj i hw (by rw [ht]; decide) (by omega)]
-  simp only [Res.bind_ok]
+  simp only [Res.bind_ok, Bool.not_true, Bool.false_eq_true, if_false]
   obtain ⟨c1, _⟩ := calcNext_root { i with off := q + 1, cur := payloadOf w, t := tagOf w } ht
   rw [c1]
   simp only [hp]
@@ -826,15 +856,19 @@ theorem advanceIter_root (pj : PJ) (i d : Iter) (lo q e : Nat) (g : Gap pj lo q)
   have e3 : ¬ (e > i.lim) := by omega
   simp only [e1, e2, e3, if_false, Int.lt_irrefl, ht, tt_root]
 
-/-- `AdvanceIter` at the end of the tape -/
+/-- `AdvanceIter` at the end of the tape: the receiver is parked at the end of its view; its payload register holds
+    the skip count of the last NOP word stepped on (the old payload if there was none) -/
 theorem advanceIter_end (pj : PJ) (i d : Iter) (lo : Nat) (g : Gap pj lo i.lim)
     (ha : 0 ≤ i.addNext) (hlo : (i.off : Int) + i.addNext = lo) :
-    Iter.advanceIter pj i d = .ok ({ i with off := lo, addNext := 0, t := tagEnd }, d, typeNone) := by
+    ∃ c, (lo = i.lim → c = i.cur) ∧
+      Iter.advanceIter pj i d = .ok ({ i with off := i.lim, addNext := 0, cur := c, t := tagEnd }, d, typeNone) := by
   unfold Iter.advanceIter
   rw [bump_to i lo ha hlo]
   simp only [Res.bind_ok]
-  rw [advanceIterLoop_gap pj i g (Nat.le_refl _), Iter.advanceIterLoop]
-  simp only [if_true, Res.bind_ok]
+  obtain ⟨c, hc, _, _, e⟩ := loops_gap pj i g (Nat.le_refl _)
+  refine ⟨c, hc, ?_⟩
+  rw [e, Iter.advanceIterLoop]
+  simp only [if_true, Res.bind_ok, Bool.not_false]
 
 /-- pointwise relation of two lists (core has no `Forall2`) -/
 inductive Forall2 {α β : Type} (R : α → β → Prop) : List α → List β → Prop
@@ -858,7 +892,8 @@ theorem pjForEach_roots (pj : PJ) : ∀ (fuel : Nat) (vs : List LVal) (i : Iter)
     cases vs with
     | nil =>
       simp only [OkRoots] at hroots
-      rw [advanceIter_end pj i default lo (by rw [hlim]; exact hroots) ha hlo]
+      obtain ⟨c, _, hae⟩ := advanceIter_end pj i default lo (by rw [hlim]; exact hroots) ha hlo
+      rw [hae]
       simp only [Res.bind_ok, show (typeNone != typeRoot) = true from by decide, if_true]
       exact ⟨[], by simp, Forall2.nil⟩
     | cons v vs =>
